@@ -193,6 +193,16 @@ func roundTrip(a int64, corr bool, count bool) {
 		rep.Count("roundtrip", "t"+strconv.FormatInt(a, 10), a != 0)
 	}
 	if a >= -capSat && a <= capSat {
+		// ToBCH is a unit conversion of its own: it must be the correctly rounded quotient a / 1e8
+		// (and hence equal ToUnit(AmountBCH)).  The bulk sweeps (count == false) pre-filter with the
+		// hardware division and confirm with the exact rational before reporting.
+		if count || bitsOf(f) != bitsOf(float64(a)/1e8) {
+			want := rn(new(big.Rat).Quo(new(big.Rat).SetInt64(a), rat1e8))
+			if bitsOf(want) != bitsOf(f) {
+				rep.Violate("C17:tobch:quotient", "ToBCH() is not the correctly rounded value of a / 1e8",
+					map[string]interface{}{"op": "tobch", "amount": a, "returned": fdesc(f), "required": fdesc(want)})
+			}
+		}
 		if err != nil || int64(b) != a {
 			rep.Violate("C17:roundtrip", "NewAmount(Amount(a).ToBCH()) != a for |a| <= 2.1e15",
 				map[string]interface{}{"op": "roundtrip", "amount": a, "to_bch": fdesc(f), "back": int64(b)})
@@ -620,6 +630,27 @@ func main() {
 			}
 			unitString(u, true)
 		}
+		// AmountUnit is an int: u+8 wraps.  ToUnit(MaxInt64-7) divides by Pow10(MinInt64) = 0,
+		// ToUnit(MaxInt64-8) by Pow10(MaxInt64) = +Inf.  (Format is only driven where the wrapped
+		// precision is negative: a positive wrapped precision of ~2^63 digits cannot be allocated.)
+		for _, u := range []int{math.MaxInt64, math.MaxInt64 - 1, math.MaxInt64 - 7, math.MaxInt64 - 8, math.MaxInt64 - 9,
+			math.MaxInt64 - 300, math.MaxInt64 - 331, math.MinInt64, math.MinInt64 + 1, math.MinInt64 + 300, math.MinInt64 + 400,
+			1 << 32, -(1 << 32), 1<<31 - 8, 1<<32 - 8, -(1 << 31) - 8} {
+			for _, a := range []int64{0, 1, -7, capSat, math.MinInt64} {
+				toUnit(a, u, true)
+			}
+			unitString(u, true)
+			rep.Histogram["unit_wrap"]++
+		}
+		for _, a := range []int64{0, 5, -5, capSat} {
+			format(a, math.MaxInt64-8, 2)
+		}
+		// far negative exponents: fixed precision of several hundred digits, ToUnit = +-Inf / NaN / huge
+		for _, u := range []int{-23, -40, -300, -316, -330, -331, -332, -340} {
+			for _, a := range []int64{0, 5, -5, capSat} {
+				format(a, u, 1)
+			}
+		}
 		for n := -340; n <= 320; n++ {
 			if (n >= -40 && n <= 40) || n%32 == 0 || (n+1)%32 == 0 || (n-1)%32 == 0 || n < -315 || n > 300 {
 				f := math.Pow10(n)
@@ -744,6 +775,8 @@ func replay() {
 	case "monotone":
 		monotone([]float64{math.Float64frombits(unum("bits1")), math.Float64frombits(unum("bits2"))})
 	case "roundtrip":
+		roundTrip(num("amount"), true, true)
+	case "tobch":
 		roundTrip(num("amount"), true, true)
 	case "tounit":
 		toUnit(num("amount"), int(num("unit")), true)
